@@ -170,12 +170,102 @@ fn stuck_request_snapshot() -> Result<String, String> {
     }
 }
 
+
+/// C08 candidate: a duplicated forwarded MsgReadIndex is recorded again after its first copy was
+/// answered; a duplicated OLD heartbeat response (same context) then releases it - and with it
+/// every read queued before it, including a fresh local read that no heartbeat round confirmed.
+fn stale_read_by_duplicates() -> Result<String, String> {
+    let mut s = sim(&[1, 2, 3], &[], base_cfg);
+    s.call(0, Call::Campaign);
+    settle(&mut s, 6);
+    if role(&s, 0) != Some(StateRole::Leader) {
+        return Err("node 1 did not become leader".into());
+    }
+    s.call(0, Call::Propose(vec![], vec![1]));
+    settle(&mut s, 6);
+    // follower 2 issues read A; the leader records it, a quorum acknowledges, A is answered
+    let ctx_a = vec![7u8, 7, 7];
+    s.call(1, Call::ReadIndex(ctx_a.clone()));
+    s.ready_round_with(1, Some(0));
+    let fwd: Vec<Message> = s.net.iter().filter(|m| m.get_msg_type() == MessageType::MsgReadIndex).cloned().collect();
+    if fwd.len() != 1 {
+        return Err(format!("expected one forwarded MsgReadIndex, got {}", fwd.len()));
+    }
+    deliver_to(&mut s, 1);
+    s.ready_round_with(0, Some(0));
+    deliver_to(&mut s, 2);
+    s.ready_round_with(1, Some(0));
+    let ack: Vec<Message> = s.net.iter().filter(|m| m.get_msg_type() == MessageType::MsgHeartbeatResponse && m.from == 2 && !m.context.is_empty()).cloned().collect();
+    if ack.is_empty() {
+        return Err("follower 2 produced no heartbeat response with the context".into());
+    }
+    settle(&mut s, 6);
+    let c0 = s.nodes[0].driver.as_ref().unwrap().node.raft.raft_log.committed;
+    // node 1 is cut off; 2 and 3 elect 2 in a newer term and commit more
+    s.net.clear();
+    s.call(1, Call::Campaign);
+    for _ in 0..8 {
+        for i in 1..3 {
+            s.ready_round_with(i, Some(0));
+        }
+        let msgs = std::mem::take(&mut s.net);
+        for m in msgs {
+            if m.to != 1 && m.from != 1 {
+                if let Some(i) = s.idx_of(m.to) {
+                    s.call(i, Call::Step(m));
+                }
+            }
+        }
+    }
+    if role(&s, 1) != Some(StateRole::Leader) {
+        return Err("node 2 did not become leader of the newer term".into());
+    }
+    s.call(1, Call::Propose(vec![], vec![2]));
+    for _ in 0..8 {
+        for i in 1..3 {
+            s.ready_round_with(i, Some(0));
+        }
+        let msgs = std::mem::take(&mut s.net);
+        for m in msgs {
+            if m.to != 1 && m.from != 1 {
+                if let Some(i) = s.idx_of(m.to) {
+                    s.call(i, Call::Step(m));
+                }
+            }
+        }
+    }
+    let c2 = s.nodes[1].driver.as_ref().unwrap().node.raft.raft_log.committed;
+    if c2 <= c0 {
+        return Err(format!("the new leader did not commit beyond {} ({})", c0, c2));
+    }
+    if role(&s, 0) != Some(StateRole::Leader) {
+        return Err("node 1 no longer believes it leads".into());
+    }
+    // a fresh read G on the superseded leader 1, issued after the newer commit; its heartbeats are lost
+    let ctx_g = vec![9u8, 9, 9];
+    s.call(0, Call::ReadIndex(ctx_g.clone()));
+    s.ready_round_with(0, Some(0));
+    s.net.clear();
+    // the network delivers duplicates of the old forwarded request and of the old acknowledgement
+    s.call(0, Call::Step(fwd[0].clone()));
+    s.call(0, Call::Step(ack[0].clone()));
+    let o = s.call(0, Call::HasReady);
+    let _ = o;
+    let rs: Vec<(Vec<u8>, u64)> = s.nodes[0].driver.as_ref().map_or(vec![], |d| d.node.raft.read_states.iter().map(|r| (r.request_ctx.clone(), r.index)).collect());
+    match rs.iter().find(|(c, _)| *c == ctx_g) {
+        Some((_, idx)) if *idx < c2 => Ok(format!("superseded leader 1 answered the fresh read {:?} with index {} although index {} was committed by leader 2 before the read was issued (released by duplicates of an old MsgReadIndex and an old heartbeat response)", ctx_g, idx, c2)),
+        Some((_, idx)) => Err(format!("read answered with index {} >= {}", idx, c2)),
+        None => Err("the fresh read was not answered".into()),
+    }
+}
+
 pub fn main(args: &[String]) {
     let name = args.first().map(|s| s.as_str()).unwrap_or("");
     let r = match name {
         "F9" | "panic:term_should_be_set" => f9(),
         "F7" | "assert_eq_last_index_self_raft_log_persisted" => f7(),
         "stuck-request-snapshot" => stuck_request_snapshot(),
+        "stale-read-by-duplicates" => stale_read_by_duplicates(),
         _ => Err("unknown finding".to_string()),
     };
     match r {
